@@ -448,6 +448,8 @@ type sink struct {
 	// lit: the embedded object is a literal object (lit.go): a target kind that cannot take its JSON text at all (an
 	// interface{} and a number beyond float64) is skipped
 	lit *Lit
+	// notes: what encoding/json said about the object and a foreign target (foreign.go), for the classifier
+	notes map[string]bool
 }
 
 func newSink(kind string) *sink {
@@ -457,7 +459,9 @@ func newSink(kind string) *sink {
 	case "rawcap":
 		s.raw = append(make(json.RawMessage, 0, 4096), `{"stale":"left over from an earlier use"}`...)
 	default:
-		panic("bad extraction target kind " + kind)
+		if !isForeign(kind) {
+			panic("bad extraction target kind " + kind)
+		}
 	}
 	return s
 }
@@ -515,6 +519,15 @@ func (s *sink) check(stage string, e error, want any, wantJSON []byte) *vstat.Vi
 	var got, ref []byte
 	refOK := true
 	var scribble func()
+	if isForeign(s.kind) {
+		// a target whose type is not the object's: verdict and content are those of json.Unmarshal (foreign.go)
+		return extractForeign(stage, e, s.kind, wantJSON, func(n string) {
+			if s.notes == nil {
+				s.notes = map[string]bool{}
+			}
+			s.notes[n] = true
+		})
+	}
 	if s.lit != nil {
 		if _, viaOK := viaAny(wantJSON); !viaOK {
 			// a number beyond float64: encoding/json cannot decode the text through interface{} (the comparison path of the
@@ -650,6 +663,7 @@ type Info struct {
 	ObjLen    int  // longest JSON text of an embedded object
 	ObjEdge   bool // ... ending within 8 bytes below .. 2 bytes above a multiple of 512
 	Into      map[string]bool // kinds of extraction targets that were filled and then overwritten by the caller
+	Foreign   map[string]bool // foreign extraction targets (foreign.go): "foreign_target_decodes:<kind>" / "foreign_target_cannot_take_the_object:<kind>"
 	PBKind    string          // the embedded object is a generated protobuf message of this kind
 	PBWKT     bool            // ... that is a well-known type or holds one in a populated field
 	PBFlat    bool            // ... that is not and holds none
@@ -842,6 +856,7 @@ func validate(ch Chain) {
 		for _, k := range LitIntoKinds {
 			fits = fits || k == ch.Into
 		}
+		fits = fits || isForeign(ch.Into)
 		if ch.Lit != nil && !fits || ch.Lit == nil && (ch.Into == "filled" || ch.Into == "anyfilled") {
 			panic("extraction target kind does not fit the object")
 		}
@@ -1227,7 +1242,14 @@ func checkChain(b *built, info *Info) *vstat.Violation {
 		if b.sink == nil {
 			return nil
 		}
-		return b.sink.check(stage, e, b.want(), b.wantJSON)
+		v := b.sink.check(stage, e, b.want(), b.wantJSON)
+		for n := range b.sink.notes {
+			if info.Foreign == nil {
+				info.Foreign = map[string]bool{}
+			}
+			info.Foreign[n] = true
+		}
+		return v
 	}
 	// plain: the plain extraction of a stage - into a fresh *Obj, or into a fresh message of the embedded message's type
 	plain := func(stage string, e error) *vstat.Violation {
@@ -1464,6 +1486,15 @@ func (i Info) Classes() []string {
 	for _, k := range LitIntoKinds {
 		add(i.Into["lit:"+k], "literal_object_extracted_into_"+k)
 	}
+	decodes, refused := false, false
+	for _, k := range ForeignIntoKinds {
+		add(i.Foreign["foreign_target_decodes:"+k], "foreign_target_decodes:"+k)
+		add(i.Foreign["foreign_target_cannot_take_the_object:"+k], "foreign_target_cannot_take_the_object:"+k)
+		decodes = decodes || i.Foreign["foreign_target_decodes:"+k]
+		refused = refused || i.Foreign["foreign_target_cannot_take_the_object:"+k]
+	}
+	add(decodes, "extracted_into_a_target_of_another_type")
+	add(refused, "extraction_into_a_target_of_another_type_refused_as_by_encoding_json")
 	seen := map[string]bool{}
 	for _, k := range i.Lit {
 		if !seen[k] {
